@@ -8,9 +8,13 @@ C18 — features agree on arrays and images and keep annotations attached.  Prop
   Props/C18Resize.lean   Part F the size-changing branch in binary64: template extent, sampling positions, landmarks
   Props/C18Norm.lean     Part G the normalisers on degenerate data (single pixel, one masked pixel), idempotence
                          up to the sign of the scale
+  Props/C18Plumb.lean    Part H the option plumbing of daisy (what reaches `_daisy`) and sum_channels
+  (GenProps/C18Src.lean: the source text of the feature code, translated on every run, equals the Core definitions
+   all of the above are about; GenProps/C18SrcProps.lean: the property theorems restated for the translated code)
 -/
 import MenpoModel.Props.C18Base
 import MenpoModel.Props.C18Kernels
 import MenpoModel.Props.C18Seq
 import MenpoModel.Props.C18Resize
 import MenpoModel.Props.C18Norm
+import MenpoModel.Props.C18Plumb
